@@ -16,7 +16,7 @@ m = {
  "engines": [{"name": "hcsa", "path": "/verif/hcsa", "serves_properties": BUILT,
    "kind_free_text": "repository-specific static analyser over go/types + go/ssa + VTA call graph (golang.org/x/tools v0.29.0); rebuilds its view of /repo on every run, executes no hc code"}],
  "checks": [],
- "notes": "All checks are static analyses of /repo's current working tree; no hc code, test or solver is executed. Defects of the pinned tree were repaired by 19 'fix:' commits in /repo (see /verif/known_findings.json and DESIGN.md section 4). /verif/seeded holds breaking changes used to test the checker.",
+ "notes": "All checks are static analyses of /repo's current working tree; no hc code, test or solver is executed. Defects of the pinned tree were repaired by 19 'fix:' commits in /repo (see /verif/known_findings.json and DESIGN.md section 4). /verif/seeded holds 159 breaking changes (all detected by the check of their own property), /verif/benign 92 behaviour-preserving refactorings (87 silent; the rest documented in DESIGN.md section 10) used to test the checker.",
  "not_applicable": []
 }
 for pid in sorted(T):
@@ -33,7 +33,7 @@ for pid in sorted(T):
       "engine": "hcsa",
       "level_claimed": {"category": level, "text": text, "design_ref": f"DESIGN.md section 3, {pid}"},
       "level_note": note,
-      "technique": "static analysis: " + tech,
+      "technique": "static analysis: " + tech + "; run on the type-checked program after helper inlining (functions the reference tree does not know are inlined into their callers at source level) with renamed anchors recognised; phi-aware dominance and infeasible-path pruning",
     })
 json.dump(m, open('/verif/MANIFEST.json', 'w'), indent=1)
 print("checks:", len(m["checks"]), "not_applicable:", len(m["not_applicable"]))
